@@ -26,6 +26,9 @@ def _call_periodic(loop: asyncio.BaseEventLoop, name, interval, callback):
 
     def run(handle, fn=callback):
         r = fn()
+        if handle.delegate is None:
+            # cancelled from inside the callback: .timerc reported success, so do not re-arm
+            return
         if r:
             if interval == 0:
                 handle.delegate = loop.call_soon(run, handle)
